@@ -78,6 +78,10 @@ def nt_c14(e):
     return e["op"] in ("ToJSON", "ReadJSON") and len(e.get("bytes", e["a"].get("doc", []))) > 2
 
 
+def nt_c16(e):
+    return e.get("kind") == "finite"
+
+
 def nt_c01(e):
     return len(e.get("reobs", [])) >= 2
 
@@ -97,6 +101,16 @@ TV_NOTE = ("Trusted: TLC and the CommunityModules overrides; the harness encoder
 NOT_APPLICABLE = {}
 
 PROPS = {
+    "C16": dict(level="model_checking", nontrivial=nt_c16, trace_module="FloatTrace.tla", trace_cfg="FloatTrace.cfg",
+                text="Structured samples of binary64 (every biased exponent with mantissas 0, 1, 2, 2^52-1, 2^51, alternating bit patterns and random ones; both signs; every power of two and "
+                     "ten with its two neighbours; integers around 2^53; halfway decimal cases; subnormal extremes; short decimals; random bit patterns) are formatted by the real "
+                     "ryu.AppendFloat64f into destination buffers with varied content, spare capacity and stale bytes, and by ToJSON of a float column. For every output TLC decides, with "
+                     "arbitrary-precision integer arithmetic written in TLA+ (BigNat.tla), the mathematical definition of spec/ShortestDec.tla: the text is in the positional grammar, lies inside "
+                     "the rounding interval of the value, no decimal with fewer digits does, and no equally long neighbour inside the interval is closer; it must also equal the strconv reference and "
+                     "leave the buffer prefix intact. The input space (2^64) is sampled, not exhausted - the definition itself is complete.",
+                note=TV_NOTE + " strconv.FormatFloat is logged as the reference the property names; the ShortestDec verdict does not depend on it.",
+                technique="TLA+ definition of shortest round-trip decimals over big naturals (ShortestDec.tla, BigNat.tla) evaluated by TLC on every produced text",
+                rule="structured float sampling x buffer states; non-trivial = a finite non-zero float; distinct by (bit pattern, buffer state, output)"),
     "C09": dict(level="model_checking", nontrivial=nt_c09,
                 text="Every member of random families of derived frames is observed through Len, typed views (ItemAt and, in a second pass, Slice()), ToCSV, ToJSON and String() on the real "
                      "library; TLC compares each with the specification's own copy of the frame: view cells = the column's cells; the CSV bytes are split by the specification's RFC 4180 "
@@ -277,7 +291,7 @@ def coverage_stats(prop, events, cfg):
             ok = False
         if not ok:
             continue
-        key = hashlib.sha1(json.dumps([e["op"], e.get("a"), e.get("dig"), e.get("gdig"), e.get("res")], sort_keys=True).encode()).hexdigest()
+        key = hashlib.sha1(json.dumps([e["op"], e.get("a"), e.get("dig"), e.get("gdig"), e.get("res"), e.get("bits"), e.get("prefix"), e.get("out") if e.get("bits") else None], sort_keys=True).encode()).hexdigest()
         if key in seen:
             continue
         seen.add(key)
